@@ -15,7 +15,11 @@ def populations(objs):
                     row[name] = n
         inst = o._instance_traits() if hasattr(o, "_instance_traits") else {}
         for name, t in inst.items():
-            n = len(t._notifiers(False) or [])
+            # an instance trait is a copy-on-write clone of the class trait: it starts with the class trait's notifiers; only
+            # what it holds BEYOND those was attached to this object
+            ct = o.__class__.__dict__.get("__class_traits__", {}).get(name) or o._trait(name, -1)
+            base = [] if ct is None or ct is t else (ct._notifiers(False) or [])
+            n = len([x for x in (t._notifiers(False) or []) if not any(x is y for y in base)])
             if n:
                 row["inst:" + name] = n
         out.append(row)
@@ -67,7 +71,40 @@ def atomic_case(case):
         poke()
         if calls:
             violated.append("%s raised, yet the handler was called %d time(s) afterwards" % (text, len(calls)))
-    return dict(reproduced=bool(violated), violated=violated)
+    # a REMOVAL that raises changes nothing: the handler registered n times on 'a' (never on 'b'), removal of 'a, b' / ['a','b']
+    from traits.observation.api import trait as _trait
+    from traits.observation.exceptions import NotifierNotFound
+
+    class Two(HasTraits):
+        a = Int
+        b = Int
+    for n in (1, 2, 3):
+        for label, expr in (("'a, b'", "a, b"), ("['a', 'b']", ["a", "b"]), ("trait('a') | trait('b')", _trait("a") | _trait("b"))):
+            o = Two()
+            del calls[:]
+            for _ in range(n):
+                o.observe(h, "a")
+            before = populations([o])
+            try:
+                o.observe(h, expr, remove=True)
+                violated.append("removal of %s although 'b' was never observed did not raise" % label)
+                continue
+            except NotifierNotFound:
+                pass
+            except Exception as e:
+                violated.append("removal of %s raised %r, expected NotifierNotFound" % (label, e))
+            after = populations([o])
+            o.a += 1
+            if len(calls) != 1:
+                violated.append("a removal of %s that raised (handler registered %d time(s) on 'a') changed the registrations: handler called %d time(s) per change, populations %r -> %r"
+                                % (label, n, len(calls), before, after))
+            # n legitimate removals must all succeed, the (n+1)-th must raise
+            try:
+                for _ in range(n):
+                    o.observe(h, "a", remove=True)
+            except Exception as e:
+                violated.append("after the failed removal of %s a legitimate removal (%d registered) raised %r" % (label, n, e))
+    return dict(reproduced=bool(violated), violated=violated[:6])
 
 
 def reachability_case(case):
